@@ -1119,6 +1119,29 @@ func panicGuard(c *Ctx, f *ssa.Function, call *ssa.Call, e *ir.Expr, kind string
 		// the seconds value is a phi of {0, elapsed}: the elapsed operand may only flow in on an edge where elapsed >= 0
 		sv := sec.Args[0].V
 		ph, isPhi := sv.(*ssa.Phi)
+		if hc, isCall := sv.(*ssa.Call); isCall {
+			// the clamp was extracted into a helper (wholeSecondsBetween): each of its returns hands back the constant 0
+			// or a value that is >= 0 on the way to that return
+			if gs := w.CalleesOf(hc); len(gs) == 1 && len(gs[0].Blocks) > 0 && gs[0].Signature.Results().Len() == 1 {
+				g := gs[0]
+				for _, blk := range g.Blocks {
+					ret, ok := blk.Instrs[len(blk.Instrs)-1].(*ssa.Return)
+					if !ok {
+						continue
+					}
+					if cst, ok := ret.Results[0].(*ssa.Const); ok && cst.Value != nil && cst.Value.String() == "0" {
+						continue
+					}
+					rs := w.ExprOf(ret.Results[0]).String()
+					if !w.Guarded(g, ret, func(p ir.Pred) bool {
+						return cmpIs(p, ">=", func(x *ir.Expr) bool { return x.String() == rs }, func(y *ir.Expr) bool { return y.Op == "const" && y.Name == "0" })
+					}, 0) {
+						return false
+					}
+				}
+				return true
+			}
+		}
 		if !isPhi {
 			return w.Guarded(f, call, func(p ir.Pred) bool {
 				return cmpIs(p, ">=", func(x *ir.Expr) bool { return x.String() == sec.Args[0].String() }, func(y *ir.Expr) bool { return y.Op == "const" && y.Name == "0" })
